@@ -55,6 +55,7 @@ type decision struct {
 	V int    // chosen alternative
 	N int    // number of alternatives (2 for a Boolean branch)
 	H uint64 // hash of the branch condition (determinism check)
+	K uint64 // concretization candidate tried at this decision (model-dependent, so it is recorded)
 }
 
 type workItem struct {
@@ -135,6 +136,7 @@ type Explorer struct {
 	asserts int
 	concAsserts int
 	newWork []workItem
+	pendingK uint64
 	nseq    int
 	nondetOrder bool
 	frozen  *frozenSet
@@ -224,6 +226,9 @@ func (ex *Explorer) query(key string, toMs int, extra *Term, wantModel bool) (sa
 	r, m, why := p.check(ex.pc, extra, ex.vars, wantModel)
 	ex.w.res.SolverWall += time.Since(t0)
 	ex.count(p.spec.name + ":" + r.String())
+	if r == resUnknown && debugPanics {
+		fmt.Fprintf(os.Stderr, "UNKNOWN from %s: %s\n", p.spec.name, why)
+	}
 	if p.broken {
 		// restart lazily; the new process re-syncs from 0
 		for k, sp := range ex.w.solvers {
@@ -313,9 +318,9 @@ func (ex *Explorer) decide(c *Term) bool {
 		}
 		take := v
 		if feasT && feasF {
-			ex.pushSibling(decision{V: b2i(!take), N: 2, H: c.hash()}, otherModel)
+			ex.pushSibling(decision{V: b2i(!take), N: 2, H: c.hash(), K: ex.pendingK}, otherModel)
 		}
-		ex.taken = append(ex.taken, decision{V: b2i(take), N: 2, H: c.hash()})
+		ex.taken = append(ex.taken, decision{V: b2i(take), N: 2, H: c.hash(), K: ex.pendingK})
 		if take {
 			ex.addPC(c)
 		} else {
@@ -348,9 +353,9 @@ func (ex *Explorer) decide(c *Term) bool {
 	}
 	take := feasT
 	if feasT && feasF {
-		ex.pushSibling(decision{V: 0, N: 2, H: c.hash()}, mF)
+		ex.pushSibling(decision{V: 0, N: 2, H: c.hash(), K: ex.pendingK}, mF)
 	}
-	ex.taken = append(ex.taken, decision{V: b2i(take), N: 2, H: c.hash()})
+	ex.taken = append(ex.taken, decision{V: b2i(take), N: 2, H: c.hash(), K: ex.pendingK})
 	if take {
 		ex.pc = append(ex.pc, c)
 		ex.model, ex.modelOK = mT, mT != nil && rT == resSat
@@ -444,13 +449,17 @@ func (ex *Explorer) recordChoice(label string, v int) {
 func (ex *Explorer) currentModel() ([]NondetVal, bool) {
 	if !ex.modelOK {
 		r, m, _ := ex.query(ex.primaryKey(), ex.cfg.QueryMs, nil, true)
-		if r != resSat {
+		if r == resUnknown {
 			for _, k := range ex.fallbackKeys() {
 				r, m, _ = ex.query(k, ex.cfg.QueryMs, nil, true)
-				if r == resSat {
+				if r != resUnknown {
 					break
 				}
 			}
+		}
+		if r == resUnsat {
+			// the path was only kept because a feasibility query had timed out
+			panic(pathAbort{"path condition unsatisfiable (found late)"})
 		}
 		if r != resSat {
 			return nil, false
@@ -517,6 +526,9 @@ func (ex *Explorer) assert(label string, cond value) {
 			ex.violation("assert", label, "", ex.model, "model-reuse")
 		}
 		nc := mkNot(c)
+		if debugPanics {
+			fmt.Fprintf(os.Stderr, "ASSERT %s (pc=%d vars=%d)\n", label, len(ex.pc), len(ex.vars))
+		}
 		r, m, why := ex.query(ex.primaryKey(), ex.cfg.QueryMs, nc, true)
 		used := ex.primaryKey()
 		if r == resUnknown {
@@ -861,4 +873,13 @@ func newWorker(id int, prog *ssa.Program, cfg *Config, sizes types.Sizes, name s
 	}
 	w.i.initializing = false
 	return w
+}
+
+// replayK returns the concretization candidate recorded for the next decision, if it is being replayed.
+func (ex *Explorer) replayK() (uint64, bool) {
+	i := len(ex.taken)
+	if i < len(ex.prefix) {
+		return ex.prefix[i].K, true
+	}
+	return 0, false
 }
